@@ -34,7 +34,7 @@ FUNCTIONS = ["stackscope._glue.glue_trio.unwrap_task", "stackscope._glue.glue_tr
 # block_where: -1 = block in the innermost body (after opening all nurseries);
 #              i  = do not go deeper than nursery i: fall out of its body and block in its __aexit__
 # body_end: how the nursery body ends (decides the bytecode shape the exiting-context analysis sees)
-BODY_ENDS = ["plain", "try_finally", "try_except", "if_return"]
+BODY_ENDS = ["plain", "try_finally", "try_except", "if_return", "same_frame"]
 
 
 def task_shapes(depth: int, fan: int, nmax: int, small_cap: int = 3, opt_cap: int = 4) -> List[Any]:
@@ -118,7 +118,23 @@ def run_tree(spec: Any, body_end: str, recurse: bool) -> Dict[str, Any]:
             if counter[0] < 0:
                 return 7
 
-    NEST = {"plain": nest_plain, "try_finally": nest_try_finally, "try_except": nest_try_except, "if_return": nest_if_return}
+    async def nest_same_frame(sp: Any, i: int, tid: int) -> Any:
+        """Two nested nurseries opened in ONE frame (the other shapes open one nursery per frame, by recursion)."""
+        nurseries, where = sp
+        if i != 0 or len(nurseries) != 2:
+            return await nest_plain(sp, i, tid)
+        async with trio.open_nursery() as n0:
+            for child in nurseries[0]:
+                n0.start_soon(run_task, child)
+            if where != 0:
+                async with trio.open_nursery() as n1:
+                    for child in nurseries[1]:
+                        n1.start_soon(run_task, child)
+                    if where != 1:
+                        await block()
+
+    NEST = {"plain": nest_plain, "try_finally": nest_try_finally, "try_except": nest_try_except, "if_return": nest_if_return,
+            "same_frame": nest_same_frame}
 
     async def run_task(sp: Any) -> None:
         t = trio.lowlevel.current_task()
